@@ -846,26 +846,25 @@ where
             }
             Instruction::Update => {
                 let fact_to: Fact = self.ipop()?;
-                let mut fact_from: Fact = self.ipop()?;
-                let mut replaced_fact = {
+                let fact_from: Fact = self.ipop()?;
+                let replaced_fact = {
                     let mut iter = self.io.fact_query(fact_from.name.clone(), fact_from.keys)?;
                     iter.next().ok_or_else(|| {
                         self.err(MachineErrorType::InvalidFact(fact_from.name.clone()))
                     })??
                 };
 
-                if !fact_from.values.is_empty() {
-                    let replaced_fact_values = &mut replaced_fact.1;
-
+                // Bind (`?`) values are not part of the literal, so only the
+                // bound value fields are compared; every one of them must
+                // equal the stored value (same rule as `fact_match`).
+                let replaced_fact_values = &replaced_fact.1;
+                let old_values_match = fact_from.values.iter().all(|want| {
                     replaced_fact_values
-                        .sort_unstable_by(|v1, v2| v1.identifier.cmp(&v2.identifier));
-                    fact_from
-                        .values
-                        .sort_unstable_by(|v1, v2| v1.identifier.cmp(&v2.identifier));
-
-                    if replaced_fact_values.as_slice() != fact_from.values.as_slice() {
-                        return Err(self.err(MachineErrorType::InvalidFact(fact_from.name.clone())));
-                    }
+                        .iter()
+                        .any(|have| have.identifier == want.identifier && have.value == want.value)
+                });
+                if !old_values_match {
+                    return Err(self.err(MachineErrorType::InvalidFact(fact_from.name.clone())));
                 }
 
                 self.io.fact_delete(fact_from.name, replaced_fact.0)?;
